@@ -5,7 +5,7 @@
    call) and Adv d; `mono` = the clock never goes backwards. *)
 From DV Require Import Base.Prelude Model.CacheM.
 From DV Require Import Proofs.CacheRing Proofs.CacheDict Proofs.CacheLru Proofs.CacheSpec
-  Proofs.CacheThm Proofs.CacheSimple Proofs.CacheBasic.
+  Proofs.CacheThm Proofs.CacheSimple Proofs.CacheBasic Proofs.CacheWalk Proofs.CacheConc.
 
 (* ---- never stale: a lookup returns an answer only if its expiration is strictly later than the
    last clock reading of that lookup (any state, any clock) *)
@@ -85,6 +85,94 @@ Theorem node_hits_exact : forall m t0 its g w key ds r w',
 Proof. exact lru_hitsfor_l. Qed.
 Print Assumptions node_hits_exact.
 
+(* ---- the shrink case of set_max_size: the new limit is max(1, m) and holds at once *)
+Theorem set_max_size_bound : forall m t0 its g w mx ds r w',
+  mono its -> lru_reach m t0 its g w -> nonneg ds ->
+  wstep lru_step (Call (SetMax mx) ds) w = Ok (Some r, w') ->
+  l_max (fst w') = Z.max 1 mx /\ zlen (l_dict (fst w')) <= Z.max 1 mx.
+Proof. exact lru_setmax_l. Qed.
+Print Assumptions set_max_size_bound.
+
+(* ---- the sentinel ring: in every reachable state walking .next from the sentinel yields a
+   duplicate-free list ids, walking .prev yields its reverse, prev (next n) = n for every ring
+   node, the dict has one entry per ring node and maps each key to the ring node carrying it *)
+Theorem ring_invariant : forall m t0 its g w, mono its -> lru_reach m t0 its g w ->
+  exists ids,
+    ring_ids (l_store (fst w)) true = Some ids /\
+    ring_ids (l_store (fst w)) false = Some (rev ids) /\
+    NoDup (sentinel :: ids) /\
+    (forall n, In n (sentinel :: ids) ->
+       exists x, nxt (l_store (fst w)) n = Some x /\ prv (l_store (fst w)) x = Some n /\ In x (sentinel :: ids)) /\
+    length ids = length (l_dict (fst w)) /\
+    (forall key i, dget (l_dict (fst w)) key = Some i ->
+       In i ids /\ exists nd, sget (l_store (fst w)) i = Some nd /\ n_key nd = Some key).
+Proof. exact ring_invariant_l. Qed.
+Print Assumptions ring_invariant.
+
+(* ---- refinement: from related states the store-level model and the list-level specification
+   make the same step (same result, same clock) and stay related; the ring is the recency list *)
+Theorem lru_refines_spec : forall cl c a zs k,
+  R c a zs ->
+  exists c' zs',
+    lru_step cl c k = Ok (fst (fst (alru_step cl a k)), c', snd (alru_step cl a k)) /\
+    R c' (snd (fst (alru_step cl a k))) zs'.
+Proof. exact sim_step. Qed.
+Print Assumptions lru_refines_spec.
+
+Theorem ring_is_recency_list : forall c a zs, R c a zs ->
+  ring_ids (l_store c) true = Some (map fst zs) /\
+  ring_ids (l_store c) false = Some (rev (map fst zs)).
+Proof. exact ring_walks. Qed.
+Print Assumptions ring_is_recency_list.
+
+(* ---- concurrency (any object whose method bodies are single critical sections; instantiated
+   with lru_step / cache_step).  Threads interleave at invocation, lock acquisition, body,
+   release and return, and time passes anywhere. *)
+Theorem mutual_exclusion_lru : forall s t0 ls cf t1 t2,
+  exec lru_step (init_conf s t0) ls cf ->
+  in_cs (cf_ph cf t1) = true -> in_cs (cf_ph cf t2) = true -> t1 = t2.
+Proof. exact (mutual_exclusion lru_step). Qed.
+Print Assumptions mutual_exclusion_lru.
+
+Theorem linearizable_lru : forall s t0 ls cf,
+  exec lru_step (init_conf s t0) ls cf ->
+  exists rs,
+    wrun lru_step (witness ls) (s, t0) = Ok (rs, (cf_obj cf, cf_now cf)) /\
+    forall t, thread_results t (witness_tid ls) rs = responses t ls ++ pending (cf_ph cf t).
+Proof. exact (linearizable lru_step). Qed.
+Print Assumptions linearizable_lru.
+
+Theorem linearizable_cache : forall s t0 ls cf,
+  exec cache_step (init_conf s t0) ls cf ->
+  exists rs,
+    wrun cache_step (witness ls) (s, t0) = Ok (rs, (cf_obj cf, cf_now cf)) /\
+    forall t, thread_results t (witness_tid ls) rs = responses t ls ++ pending (cf_ph cf t).
+Proof. exact (linearizable cache_step). Qed.
+Print Assumptions linearizable_cache.
+
+(* each call of a thread is Inv, Acq, Body, Rel, Res in this order for the same method, and the
+   calls of one thread do not overlap: the body - the call's place in the sequential witness -
+   lies between invocation and response, so the witness respects real-time precedence *)
+Theorem linearization_point_inside_call : forall s t0 ls cf t,
+  exec lru_step (init_conf s t0) ls cf -> trun t TIdle ls = Some (abs_phase (cf_ph cf t)).
+Proof. exact (thread_protocol lru_step). Qed.
+Print Assumptions linearization_point_inside_call.
+
+(* consequences for the LRUCache under concurrency: the bound holds in every reachable
+   configuration, and no method body can raise *)
+Theorem conc_lru_bound : forall m t0 c0 ls cf,
+  lru_init m = Ok c0 -> exec lru_step (init_conf c0 t0) ls cf ->
+  zlen (l_dict (cf_obj cf)) <= l_max (cf_obj cf).
+Proof. exact conc_lru_bound_l. Qed.
+Print Assumptions conc_lru_bound.
+
+Theorem conc_lru_progress : forall m t0 c0 ls cf t c ds,
+  lru_init m = Ok c0 -> exec lru_step (init_conf c0 t0) ls cf ->
+  cf_ph cf t = Holding c -> cf_lock cf = Some t -> nonneg ds ->
+  exists cf', cstep lru_step cf (LBody t c ds) cf'.
+Proof. exact conc_lru_progress_l. Qed.
+Print Assumptions conc_lru_progress.
+
 (* ---- non-vacuity: a concrete history of LRUCache(2) *)
 Definition ex_hist : list item :=
   [Call (Put 1 (mkAns 11 50)) []; Call (Put 2 (mkAns 12 60)) []; Call (Get 1) [3];
@@ -122,3 +210,23 @@ Example ex_cache : exists g w,
   cache_reach 5 0 [] [Call (Put 1 (mkAns 11 50)) []; Adv 60; Call (Get 1) [0]] g w /\
   c_miss (fst w) = 1.
 Proof. eexists. eexists. split; vm_compute; reflexivity. Qed.
+
+(* two threads: thread 1 gets the lock first although thread 0 invoked first *)
+Example ex_conc : exists c0 cf,
+  lru_init 2 = Ok c0 /\
+  exec lru_step (init_conf c0 0)
+    [LInv 0 (Put 1 (mkAns 11 50)); LInv 1 (Get 1); LAcq 1; LEnv 2; LBody 1 (Get 1) [1]; LRel 1;
+     LAcq 0; LBody 0 (Put 1 (mkAns 11 50)) []; LRes 1 (Get 1) RNone; LRel 0] cf /\
+  cf_now cf = 2 /\ dkeys (l_dict (cf_obj cf)) = [1].
+Proof.
+  eexists. eexists. split; [vm_compute; reflexivity|]. split.
+  - repeat (eapply E_cons; [first
+      [ eapply S_inv; reflexivity
+      | eapply S_acq; reflexivity
+      | eapply S_body; [reflexivity|reflexivity|repeat constructor; lia|vm_compute; reflexivity]
+      | eapply S_rel; reflexivity
+      | eapply S_res; reflexivity
+      | eapply S_env; lia ]|]).
+    apply E_nil.
+  - vm_compute. split; reflexivity.
+Qed.
